@@ -42,6 +42,10 @@ A failed condition is `unknown` until the native replayer exhibits a schedule: t
 pair of lines of the patching context manager (H12).  H9a and H9b were repaired in /repo (fix: commits); H12 still fails on
 /repo HEAD and is reproduced: recorded in known_findings.json with proposed_fixes/C15_3.diff.
 
+**Round 7 (deepening).**  Verified on the real bodies by symbolic execution (were assumed / dataflow-only): the key expansion behind
+the round-key cache (`expansion_contract`), the target-list provider of the char-map patcher (`provider_contract`), the permanent AES
+patch (`permanent_patch_contract`), the archive configuration setter (`config_contract`).  See ENGINE.md "C15 round 7".
+
 **Robustness (round 3).**  Obligations follow the data flow, not the text: stores, guards and foreign mutations are followed into
 private helpers (a helper's store is "after a miss" if every call site is; a helper's setattr acts for the function that names the
 patched object), bulk publications are read through comprehensions / staging dicts / helper returns, keys and dependencies of a
@@ -85,6 +89,11 @@ class C15Executor(Executor):
                 ent[key] = a[key]
                 st.ghost["modattrs_entry"] = ent
             return [(st, a[key])]
+        if len(args) == 3 and isinstance(args[0], VFunc) and args[0].how == "ext":
+            # getattr(<object of another library>, name, default): whether the attribute exists is not known -- either the default
+            # or some value (the engine would resolve it to a dotted external name, which is always truthy)
+            s2 = st.fork()
+            return [(st, args[2]), (s2, VUnk(f"getattr:{args[1].const() if isinstance(args[1], VStr) else '?'}"))]
         return super().b_getattr(st, args, kwargs, node)
 
     def b_setattr(self, st, args, kwargs, node):
@@ -97,6 +106,13 @@ class C15Executor(Executor):
                 st.ghost["modattrs_entry"] = ent
             a[key] = args[2]
             st.ghost["modattrs"] = a
+            return [(st, NONE)]
+        from pyvc.values import VMod
+        if len(args) == 3 and isinstance(args[0], VMod):
+            nm = args[1].const() if isinstance(args[1], VStr) else None
+            if nm is not None:       # the same act as `module.nm = value`
+                return [(s2, NONE) for s2 in self.store_attr(st, args[0], nm, args[2], node)]
+            st.ghost["foreign_stores"] = tuple(st.ghost.get("foreign_stores", ())) + (f"{self.loc(node)} setattr({args[0].name}, <computed name>, ...)",)
             return [(st, NONE)]
         return self.havoc_call(st, "setattr", args, node)
 
@@ -121,11 +137,22 @@ class C15Executor(Executor):
         return super().note_store(st, ref, node)
 
     def call_method(self, st, obj, name, args, kwargs, node):
+        if type(obj).__name__ in ("VSetC", "VDictC") and name in O.DEF_MUTATORS:
+            # a module-level literal table (the engine reads it as a constant) is mutated in place: shared by every call
+            self.shared_mutated(st, node, f".{name}() on a module-level object")
+            return [(st, NONE)]
+        if isinstance(obj, VExt) and obj.sort == "C15Shared":
+            if name in O.DEF_MUTATORS:
+                self.shared_mutated(st, node, f".{name}() on a module-level object")
+            return [(st, VUnk(f"shared.{name}()"))]
         if isinstance(obj, VRef) and obj.ref in self.published(st) and name in O.DEF_MUTATORS:
             st.ghost["published_mutated"] = tuple(st.ghost.get("published_mutated", ())) + (self.loc(node),)
         return super().call_method(st, obj, name, args, kwargs, node)
 
     def store_index(self, st, base, idx, v, node):
+        if isinstance(base, VExt) and base.sort == "C15Shared":
+            self.shared_mutated(st, node, "store into a module-level object")
+            return [st]
         if isinstance(base, VExt) and base.sort == "C15Cache":
             if isinstance(v, VRef):
                 self.publish(st, v.ref)
@@ -133,7 +160,74 @@ class C15Executor(Executor):
             return [st]
         return super().store_index(st, base, idx, v, node)
 
+    # ---- round 7: other module-level mutable containers of the module are SHARED objects (sort "C15Shared"): every store into one /
+    # mutator call on one is recorded like a mutation of a published object; handing one out is not "a fresh object"
+    def shared_mutated(self, st, node, what="module-level object"):
+        st.ghost["published_mutated"] = tuple(st.ghost.get("published_mutated", ())) + (f"{self.loc(node)} ({what})",)
+
+    # ---- round 7: the archive configuration cell (only while `config_contract` is verified: it switches reg.global_cells on)
+    def store_global(self, st, name, v):
+        st.ghost["global_stores"] = tuple(st.ghost.get("global_stores", ())) + (name,)
+        return super().store_global(st, name, v)
+
+    def unknown_global(self, st, name):
+        mk = getattr(self.reg, "c15_cell_invariant", {}).get((self.module.rel, name))
+        if mk is None:
+            return super().unknown_global(st, name)
+        v = mk(self, st)                 # module invariant of the cell (see config_contract): an object of the configuration class
+        st.ghost[("global", self.module.rel, name)] = v
+        st.ghost["C15_old_cell"] = v
+        return v
+
+    def truth(self, st, v):
+        if isinstance(v, VExt) and v.sort == "C15Shared":
+            return VBool(z3.Bool(fresh_name("shared_nonempty")))     # whether a shared container is empty is not known
+        return super().truth(st, v)
+
+    def store_slice(self, st, base, sl, v, node):
+        if isinstance(base, VExt) and base.sort == "C15Shared":
+            self.shared_mutated(st, node, "slice store into a module-level object")
+            return [st]
+        return super().store_slice(st, base, sl, v, node)
+
+    def store_attr(self, st, base, attr, v, node):
+        from pyvc.values import VMod
+        from pyvc.values import VType
+        if isinstance(base, VMod) or (isinstance(base, VExt) and base.sort == "PyModule") or (isinstance(base, VFunc) and base.how == "ext") \
+                or (isinstance(base, VType) and "." in str(base.name) and not str(base.name).startswith("sharepoint2text.")):
+            # `module.name = value` / `module.Class.name = value`: the same act as setattr(module, "name", value) -- recorded
+            # (place, target, value) for the frame clauses
+            tgt = f"{(base.a if isinstance(base, VFunc) else getattr(base, 'name', None)) or 'module'}.{attr}"
+            st.ghost["foreign_stores"] = tuple(st.ghost.get("foreign_stores", ())) + (f"{self.loc(node)} {tgt} = ...",)
+            st.ghost["foreign_store_values"] = tuple(st.ghost.get("foreign_store_values", ())) + ((tgt, v),)
+            return [st]
+        return super().store_attr(st, base, attr, v, node)
+
+    def get_attr(self, st, base, attr, node):
+        if isinstance(base, VExt) and base.sort == "C15Shared":
+            return [(st, VFunc("bound", base, attr))]
+        return super().get_attr(st, base, attr, node)
+
+    def get_index(self, st, base, idx, node):
+        if isinstance(base, VExt) and base.sort == "C15Shared":
+            return [(st, VUnk("shared_item"))]
+        if isinstance(base, VFunc) and base.how == "ext" and isinstance(base.a, str) and not base.a.startswith("C15."):
+            if isinstance(idx, VInt) and idx.const() is not None and base.a.endswith("crypt_provider"):
+                # ASSUMED (listed): pypdf's `crypt_provider` is a tuple of strings (provider name, version): some string
+                return [(st, VStr(z3.String(fresh_name("provider_tag"))))]
+            return [(st, VUnk(f"{base.a}[..]"))]        # an item of an object of another library: unknown
+        if isinstance(base, VTuple) and len(base.items) == 256 and isinstance(idx, VInt) and idx.const() is None and getattr(idx, "is_bv", False) \
+                and idx.t.size() == 8 and _byte_table(base):
+            # read of a constant 256-entry byte table at a symbolic byte: SOME byte (over-approximation; the frame / freshness
+            # obligations of this pack do not depend on table contents, and the 256-way If chains cost seconds per call)
+            return [(st, VInt(z3.BitVec(fresh_name("tbl"), 8)))]
+        return super().get_index(st, base, idx, node)
+
     def b_len(self, st, args, kwargs, node):
+        if args and isinstance(args[0], VExt) and args[0].sort == "C15Shared":
+            n = z3.Int(fresh_name("shared_len"))
+            st.assume(n >= 0)
+            return [(st, VInt(n))]
         if args and isinstance(args[0], VExt) and args[0].sort == "C15Cache":
             n = z3.Int(fresh_name("cache_len"))
             st.assume(n >= 0)
@@ -151,6 +245,22 @@ class C15Executor(Executor):
             self.raise_in(bad, VExc(t, {"site": "thrown into generator at yield"}))
             out.append((s, v))
         return out
+
+
+_BYTE_TABLES = {}
+
+
+def _byte_table(v):
+    k = id(v)
+    if k not in _BYTE_TABLES:
+        ok = True
+        for x in v.items:
+            c = x.const() if isinstance(x, VInt) else None
+            if c is None or not (0 <= c <= 255):
+                ok = False
+                break
+        _BYTE_TABLES[k] = (v, ok)       # keeps `v` alive: ids are not recycled
+    return _BYTE_TABLES[k][1]
 
 
 EXECUTOR = C15Executor
@@ -224,15 +334,28 @@ def contracts(reg):
         return outs
 
     reg.ext_models["C15.make_wrapper"] = lambda ex, st, args, kwargs, node: [(st, VExt("Callable"))]
-    reg.fn[f"{PDF}::{prov[1]}"] = FnContract(
-        target=f"{PDF}::{prov[1]}", assumed=True, inline=False,
-        note="ASSUMED shape, cross-checked against its AST by obligation H1.shape: returns (literal list of (module, name) pairs, "
-             "wrapper factory that only defines a closure) or raises AttributeError")
+    # (until round 6 this model was an ASSUMED shape; since round 7 `provider_contract` below verifies the provider's real body and
+    #  one of its clauses is that every returned target list is one of `shapes`, so the model is the call-site view of a verified contract)
     # route calls of the real function to the model above
     def call_patcher(ex, st, args, kwargs, node):
         return m_patcher(ex, st, args, kwargs, node)
     reg.module_consts[(PDF, prov[1])] = VFunc("ext", "C15.patcher")
     reg.ext_models["C15.patcher"] = call_patcher
+
+    pc_ = provider_contract(reg, prov, shapes)
+    if pc_ is not None:
+        out.append(pc_)
+    else:
+        reg.fn[f"{PDF}::{prov[1]}"] = FnContract(
+            target=f"{PDF}::{prov[1]}", assumed=True, inline=False,
+            note="ASSUMED shape, cross-checked against its AST by obligation H1.shape: returns (literal list of (module, name) pairs, "
+                 "wrapper factory that only defines a closure) or raises AttributeError")
+    pp_ = permanent_patch_contract(reg, roles.get("permanent-aes-patch"))
+    if pp_ is not None:
+        out.append(pp_)
+    cc_ = config_contract(reg)
+    if cc_ is not None:
+        out.append(cc_)
 
     def restored(c):
         a = c.st.ghost.get("modattrs", {})
@@ -286,10 +409,19 @@ def cache_contracts(reg):
     def m_expand(ex, st, args, kwargs, node):
         bad = st.fork()
         ex.raise_in(bad, ex.mk_exc("ValueError"))
-        return [(st, ex.new_list(st, [VUnk(f"rk[{i}]") for i in range(2)]))]       # a fresh list of round keys
+        v = ex.new_list(st, [VUnk(f"rk[{i}]") for i in range(2)])       # a fresh list of round keys
+        st.ghost["expansions"] = tuple(st.ghost.get("expansions", ())) + ((args[0] if args else None, v.ref),)
+        return [(st, v)]
 
     reg.ext_models["C15.expand_key"] = m_expand
-    reg.module_consts[(AESF, roles.get("key-expansion") or "_expand_key")] = VFunc("ext", "C15.expand_key")
+    expn = roles.get("key-expansion") or "_expand_key"
+    exp_c = expansion_contract(reg, acc[0], expn)
+    if exp_c is not None:
+        # round 7: the expansion is VERIFIED on its real body (below); the accessor's call site applies that contract, whose
+        # call-site view (result_maker: a list allocated by the call; ValueError) is exactly the former assumed model `m_expand`
+        out.append(exp_c)
+    else:
+        reg.module_consts[(AESF, expn)] = VFunc("ext", "C15.expand_key")
 
     def stored_under_looked_up_key(c):
         stores = c.st.ghost.get("cache_stores", ())
@@ -297,8 +429,27 @@ def cache_contracts(reg):
         ok = all(any(k is l for l in looks) or any(k is c.args[a] for a in c.args) for (k, _v) in stores)
         return z3.BoolVal(bool(ok))
 
-    def not_mutated(c):
+    def stores_the_expansion_of_its_key(c):
+        """memo soundness of the round-key cache, symbolically (H3a was a dataflow reading): whatever a call stores under a key is
+        the object the (verified) key expansion returned FOR THAT VERY KEY in this call -- nothing older, nothing computed from
+        another argument or from module state."""
+        stores = c.st.ghost.get("cache_stores", ())
+        exps = c.st.ghost.get("expansions", ())
+        bad = [k for (k, v) in stores if not (isinstance(v, VRef) and any(a is k and r == v.ref for (a, r) in exps))]
+        if bad:
+            c.note = f"{len(bad)} store(s) of a value that is not the expansion of the key stored under"
+        return z3.BoolVal(not bad)
+
+    def not_mutated(c, raising=False):
         m = c.st.ghost.get("published_mutated", ()) if c.st is not None else ()
+        if m and all("module-level object" in x for x in m):
+            # (round 7) the accessor path writes OTHER module-level containers (lazily filled tables, scratch buffers): whether that
+            # is a correct populate-once or shared working memory is H8 / H9b / H14's question -- undecided here, the schedule /
+            # history replayer decides (never a refutation by this over-approximation)
+            if raising:
+                return z3.BoolVal(True)
+            from pyvc.ops import Unsupported
+            raise Unsupported("the accessor path writes module-level containers other than the cache at " + ", ".join(m)[:300])
         if m:
             c.note = "mutates an object the cache holds / has handed out at " + ", ".join(m)
         return z3.BoolVal(not m)
@@ -308,11 +459,474 @@ def cache_contracts(reg):
     out.append(FnContract(
         target=f"{acc[0]}::{acc[1]}", params=[(p_, p_unk()) for p_ in acc_params],
         ensures=[("objects-held-by-the-cache-are-not-mutated", not_mutated),
-                 ("a-miss-stores-under-the-key-it-looked-up", stored_under_looked_up_key)],
-        raises=[Raises("ValueError", when=not_mutated, label="only the key-length check of _expand_key, and nothing published was mutated before")],
-        note="cache object abstract; _expand_key assumed to return a fresh list or raise ValueError (its contract is C20's)",
+                 ("a-miss-stores-under-the-key-it-looked-up", stored_under_looked_up_key),
+                 ("what-a-miss-stores-is-the-expansion-of-that-key", stores_the_expansion_of_its_key)],
+        raises=[Raises("ValueError", when=lambda c: not_mutated(c, True), label="only the key-length check of _expand_key, and nothing published was mutated before")],
+        note="cache object abstract; the key expansion is applied by its verified contract (round 7: a list allocated by the call, or ValueError)",
     ))
     return out
+
+
+def _bound_names(fn):
+    """Names bound inside `fn` (parameters, assignment / loop / with / except / import targets, nested defs), nested scopes included."""
+    out = set()
+    for n in ast.walk(fn):
+        if isinstance(n, (ast.FunctionDef, ast.AsyncFunctionDef, ast.Lambda)):
+            a = n.args
+            out |= {x.arg for x in a.posonlyargs + a.args + a.kwonlyargs} | ({a.vararg.arg} if a.vararg else set()) | ({a.kwarg.arg} if a.kwarg else set())
+            if not isinstance(n, ast.Lambda) and n is not fn:
+                out.add(n.name)
+        elif isinstance(n, ast.Name) and isinstance(n.ctx, (ast.Store, ast.Del)):
+            out.add(n.id)
+        elif isinstance(n, ast.ExceptHandler) and n.name:
+            out.add(n.name)
+        elif isinstance(n, (ast.Import, ast.ImportFrom)):
+            out |= {(x.asname or x.name.split(".")[0]) for x in n.names}
+    return out
+
+
+def provider_contract(reg, prov, shapes):
+    """Round 7.  The target-list provider of the char-map patcher under a contract VERIFIED by symbolic execution of its real body
+    (it was an ASSUMED shape, cross-checked only syntactically by `policy#returns-literal-target-lists`).  On every path:
+      * it returns (a list ALLOCATED BY THIS CALL of (module, constant attribute name) pairs, a wrapper factory DEFINED IN THIS CALL
+        whose free variables are module-level names / imports only -- no per-call state is captured), or raises AttributeError;
+      * the returned target list is one of the lists the patcher's call-site model forks over (same attribute names, same
+        "same module / different module" pattern): the call-site view kept for the patcher is IMPLIED by this contract;
+      * the provider itself patches nothing: no setattr / attribute store on another module (the only writer is the patcher,
+        whose restore obligation H1 covers exactly the returned targets)."""
+    try:
+        mod = loader.module(prov[0])
+        fn = mod.functions.get(prov[1])
+        if fn is None or fn.args.args or fn.args.posonlyargs or fn.args.vararg or fn.args.kwarg or fn.args.kwonlyargs:
+            return None
+        import builtins
+        mod_names = set(mod.functions) | set(mod.classes) | set(mod.assigns) | set(mod.imports) | set(dir(builtins))
+        import_aliases = {(x.asname or x.name.split(".")[0]) for n in ast.walk(fn) if isinstance(n, (ast.Import, ast.ImportFrom)) for x in n.names}
+        nested = {n.name: n for n in ast.walk(fn) if isinstance(n, ast.FunctionDef) and n is not fn}
+    except Exception:  # noqa
+        return None
+    from pyvc.values import VMod
+
+    def body(c):
+        return not c.at_call_site and c.ex.contract is me
+
+    def captured_state(fd):
+        bound = _bound_names(fd)
+        bad = []
+        for x in ast.walk(fd):
+            if isinstance(x, ast.Name) and isinstance(x.ctx, ast.Load) and x.id not in bound:
+                if x.id in import_aliases or x.id in nested:
+                    continue
+                if x.id not in mod_names or x.id in _bound_names(fn) - set(nested) - import_aliases:
+                    bad.append(x.id)
+        return sorted(set(bad))
+
+    def parts(c):
+        r = c.result
+        if not (isinstance(r, VTuple) and len(r.items) == 2):
+            return None, None, f"returns {r!r}: not a (targets, factory) pair"
+        tl, fac = r.items
+        if not isinstance(tl, VRef) or tl.ref in c.entry.heap or not c.st.obj(tl.ref).fresh or c.st.obj(tl.ref).kind != "list" or c.st.obj(tl.ref).data is None:
+            return None, None, "the target list is not a list allocated by this call"
+        items = []
+        for it in c.st.obj(tl.ref).data:
+            if not (isinstance(it, VTuple) and len(it.items) == 2 and isinstance(it.items[0], (VMod, VExt)) and isinstance(it.items[1], VStr)
+                    and it.items[1].const() is not None):
+                return None, None, f"target {it!r} is not a (module, constant name) pair"
+            m0 = it.items[0]
+            items.append((m0.name if isinstance(m0, VMod) else str(m0.t), it.items[1].const()))
+        return items, fac, ""
+
+    def shape_ok(c):
+        if not body(c):
+            return z3.BoolVal(True)
+        items, fac, why = parts(c)
+        if items is None:
+            c.note = why
+            return z3.BoolVal(False)
+        if isinstance(fac, VFunc) and fac.how == "repo":
+            c.note = f"targets {items}; factory = module-level function {fac.b}"     # hoisted factory: stateless by construction
+            return z3.BoolVal(True)
+        if not (isinstance(fac, VFunc) and fac.how == "closure" and isinstance(fac.a, ast.FunctionDef) and any((fac.a.name, fac.a.lineno) == (n.name, n.lineno) for n in ast.walk(fn) if isinstance(n, ast.FunctionDef) and n is not fn)):
+            c.note = f"the wrapper factory {fac!r} is not a function defined by this call"
+            return z3.BoolVal(False)
+        cap = captured_state(fac.a)
+        if cap:
+            c.note = f"the wrapper factory captures per-call state: {cap}"
+            return z3.BoolVal(False)
+        c.note = f"targets {items}; factory {fac.a.name} (line {fac.a.lineno})"
+        return z3.BoolVal(True)
+
+    def pattern(pairs):
+        first = {}
+        return [(first.setdefault(a, len(first)), n) for (a, n) in pairs]
+
+    def in_call_site_model(c):
+        if not body(c):
+            return z3.BoolVal(True)
+        items, _fac, why = parts(c)
+        if items is None:
+            c.note = why
+            return z3.BoolVal(False)
+        ok = any(pattern(items) == pattern(sh) for sh in shapes)
+        c.note = f"{items} " + ("is" if ok else "is NOT") + f" one of the {len(shapes)} target lists of the patcher's call-site model"
+        return z3.BoolVal(ok)
+
+    def patches_nothing(c):
+        if not body(c):
+            return z3.BoolVal(True)
+        w = tuple(c.st.ghost.get("foreign_stores", ())) + tuple(f"setattr(.., {k[1]!r}, ..)" for k in c.st.ghost.get("modattrs", {}))
+        w += tuple(c.st.ghost.get("published_mutated", ()))
+        if w:
+            c.note = "writes outside the call: " + ", ".join(w)
+        return z3.BoolVal(not w)
+
+    me = FnContract(
+        target=f"{prov[0]}::{prov[1]}", params=[],
+        ensures=[("returns-a-new-target-list-of-(module,-constant-name)-pairs-and-a-stateless-wrapper-factory", shape_ok),
+                 ("returned-targets-are-those-of-the-patcher's-call-site-model", in_call_site_model),
+                 ("patches-nothing-itself", patches_nothing)],
+        raises=[Raises("AttributeError", when=patches_nothing, label="no supported pypdf entry point: nothing was patched before")],
+        note="verified on the real body (round 7); the patcher's call site keeps the model `C15.patcher`, which this contract implies",
+    )
+    ROLE_OF[me.target] = "<char-map-patch-targets>"
+    return me
+
+
+def config_contract(reg, repo=None):
+    """Round 7.  The configuration function of the archive extractor (H4 was a dataflow reading: "`_config` is rebound only by
+    configuration functions").  Found by what it does: the one function of the module that declares a module-level name `global`,
+    whose initialiser constructs a frozen dataclass of the module, and takes every field of that class as an Optional parameter.
+    Verified on the real body, with the module invariant "the cell holds an instance of that class with int / bool fields" for the
+    value read at entry (inductive: the initialiser constructs one, and clause 1 shows the only writer stores one):
+      1 the name is rebound to an object ALLOCATED BY THIS CALL of the configuration class -- configuration objects that earlier
+        calls / running extractions hold are never changed under them; nothing else is written (no other global, no module-level
+        container, no attribute of another module, no object older than the call);
+      2 every field of the new object is the argument or, where the argument is absent, the previous value (solver-discharged per
+        field) -- the configuration after a sequence of calls is a function of the arguments of those calls alone;
+      3 no exception."""
+    try:
+        mod = loader.module(ARCH, repo)
+        cands = []
+        for q, fn in mod.functions.items():
+            gl = [nm for x in ast.walk(fn) if isinstance(x, ast.Global) for nm in x.names]
+            if "." in q or len(gl) != 1 or gl[0] not in mod.assigns:
+                continue
+            init = mod.assigns[gl[0]]
+            if not (isinstance(init, ast.Call) and isinstance(init.func, ast.Name) and init.func.id in mod.classes and not init.args and not init.keywords):
+                continue
+            cls = mod.classes[init.func.id]
+            cls = cls if isinstance(cls, ast.ClassDef) else getattr(cls, "node", None)
+            if cls is None:
+                continue
+            fields = [(b.target.id, dotted(b.annotation) or "") for b in cls.body if isinstance(b, ast.AnnAssign) and isinstance(b.target, ast.Name)]
+            ps = [a.arg for a in fn.args.posonlyargs + fn.args.args + fn.args.kwonlyargs]
+            if fields and all(t in ("int", "bool") for (_f, t) in fields) and sorted(ps) == sorted(f for (f, _t) in fields) \
+                    and not fn.args.vararg and not fn.args.kwarg:
+                cands.append((q, fn, gl[0], init.func.id, fields, ps))
+        if len(cands) != 1:
+            return None
+        q, fn, cell, cname, fields, ps = cands[0]
+    except Exception:  # noqa
+        return None
+    from pyvc.state import HeapObj
+    from pyvc.verify import p_opt, p_int, p_bool
+    ftype = dict(fields)
+
+    def old_object(ex, st):
+        data = {f: (VInt(z3.Int(f"old_{f}")) if t == "int" else VBool(z3.Bool(f"old_{f}"))) for (f, t) in fields}
+        return VRef(st.alloc(HeapObj("obj", data, cname, False), ex.refs))
+
+    def mk_first(inner):
+        def mk(ex, st, name):
+            ex.reg.global_cells = True                                   # this contract only: its worker has its own registry
+            ex.reg.c15_cell_invariant = {(ARCH, cell): old_object}
+            return inner.make(ex, st, name)
+        return Maker(mk, desc=inner.desc)
+
+    params = []
+    for i, p_ in enumerate(ps):
+        m_ = p_opt(p_int() if ftype[p_] == "int" else p_bool())
+        params.append((p_, mk_first(m_) if i == 0 else m_))
+
+    def body(c):
+        return not c.at_call_site and c.ex.contract is me
+
+    def new_obj(c):
+        v = c.st.ghost.get(("global", ARCH, cell))
+        return v if isinstance(v, VRef) else None
+
+    def replaced_not_mutated(c):
+        if not body(c):
+            return z3.BoolVal(True)
+        g = c.st.ghost
+        bad = [f"global {n} rebound" for n in g.get("global_stores", ()) if n != cell]
+        bad += list(g.get("published_mutated", ())) + list(g.get("foreign_stores", ())) + [l for (_r, l) in g.get("nonfresh_stores", ())]
+        v = new_obj(c)
+        if cell not in g.get("global_stores", ()):
+            bad.append(f"{cell} is not rebound")
+        elif v is None or v.ref in c.entry.heap or not c.st.obj(v.ref).fresh or c.st.obj(v.ref).kind != "obj" or c.st.obj(v.ref).cls != cname:
+            bad.append(f"{cell} is not rebound to a {cname} allocated by this call")
+        old = g.get("C15_old_cell")
+        if isinstance(old, VRef) and c.st.heap.get(old.ref) is not None and c.st.obj(old.ref).data != {f: c.st.obj(old.ref).data.get(f) for f in ftype}:
+            bad.append("fields added to the previous configuration object")
+        if bad:
+            c.note = "; ".join(bad[:4])
+        return z3.BoolVal(not bad)
+
+    def field_clause(f):
+        def cl(c):
+            if not body(c):
+                return z3.BoolVal(True)
+            v = new_obj(c)
+            if v is None or c.st.obj(v.ref).kind != "obj" or f not in (c.st.obj(v.ref).data or {}):
+                c.note = f"no new configuration object with field {f}"
+                return z3.BoolVal(False)
+            new = c.st.obj(v.ref).data[f]
+            a = c.args[f]
+            if ftype[f] == "int":
+                old = z3.Int(f"old_{f}")
+                want = old if a is NONE or not isinstance(a, VInt) else z3.If(a.t != 0, a.t, old)       # `arg or previous`
+                return ops.int_term(new) == want if isinstance(new, VInt) else z3.BoolVal(False)
+            old = z3.Bool(f"old_{f}")
+            want = old if a is NONE or not isinstance(a, VBool) else a.t                                 # `arg if arg is not None else previous`
+            return c.ex._b(new) == want if isinstance(new, VBool) else z3.BoolVal(False)
+        return cl
+
+    me = FnContract(
+        target=f"{ARCH}::{q}", params=params,
+        ensures=[("rebinds-the-configuration-to-a-new-object-and-writes-nothing-else", replaced_not_mutated)] +
+                [(f"field#{i}-is-the-argument-or-the-previous-value", field_clause(f)) for i, (f, _t) in enumerate(fields)],
+        raises=[], total=True,
+        note="verified on the real body (round 7) under the module invariant that the cell holds a configuration object",
+    )
+    ROLE_OF[me.target] = "<configuration-setter>"
+    return me
+
+
+def permanent_patch_contract(reg, key):
+    """Round 7.  The one permanent patch (pypdf's fallback AES provider) by symbolic execution of its real body; H2 was a dataflow
+    reading only.  The attribute stores on pypdf modules / classes are recorded in order as ghost state:
+      * a call that returns False, and a call that raises, has installed NOTHING (no partial installation);
+      * every installed value is closed: a module-level function of the package, a function defined in this call that captures no
+        per-call state, or an object of the patched library itself (re-export) -- so what a call installs does not depend on when it
+        runs or on what ran before;
+      * all installing paths install the same targets in the same order: with closed values, a second call rebinds the same names
+        to equivalent values (idempotent), which is what makes the permanent change a constant of the process."""
+    try:
+        if key is None:
+            return None
+        mod = loader.module(key[0])
+        fn = mod.functions.get(key[1])
+        if fn is None or fn.args.args or fn.args.posonlyargs or fn.args.vararg or fn.args.kwarg or fn.args.kwonlyargs:
+            return None
+        import builtins
+        mod_names = set(mod.functions) | set(mod.classes) | set(mod.assigns) | set(mod.imports) | set(dir(builtins))
+        import_aliases = {(x.asname or x.name.split(".")[0]) for n in ast.walk(fn) if isinstance(n, (ast.Import, ast.ImportFrom)) for x in n.names}
+        nested = {n.name for n in ast.walk(fn) if isinstance(n, ast.FunctionDef) and n is not fn}
+        locals_ = _bound_names(fn) - nested - import_aliases
+    except Exception:  # noqa
+        return None
+    seen = {}
+
+    def body(c):
+        return not c.at_call_site and c.ex.contract is me
+
+    def captured(fd):
+        bound = _bound_names(fd)
+        return sorted({x.id for x in ast.walk(fd) if isinstance(x, ast.Name) and isinstance(x.ctx, ast.Load) and x.id not in bound
+                       and x.id not in import_aliases and x.id not in nested and (x.id not in mod_names or x.id in locals_)})
+
+    def stores(c):
+        return tuple(c.st.ghost.get("foreign_store_values", ()))
+
+    def other_writes(c):
+        return tuple(f"setattr(.., {k[1]!r}, ..)" for k in c.st.ghost.get("modattrs", {})) + tuple(c.st.ghost.get("published_mutated", ())) + \
+            tuple(x for x in c.st.ghost.get("foreign_stores", ()) if "setattr(" in x)
+
+    def nothing_unless_true(c):
+        if not body(c):
+            return z3.BoolVal(True)
+        r = c.result
+        rc = r.const() if isinstance(r, VBool) else None
+        if rc is None:
+            c.note = f"returns {r!r}: not a definite True / False"
+            return z3.BoolVal(False)
+        if rc is False and (stores(c) or other_writes(c)):
+            c.note = "returns False after installing " + ", ".join(t for (t, _v) in stores(c)) + " ".join(other_writes(c))
+            return z3.BoolVal(False)
+        if rc is True and not stores(c):
+            c.note = "returns True without installing anything"
+            return z3.BoolVal(False)
+        return z3.BoolVal(True)
+
+    def closed_values(c):
+        if not body(c):
+            return z3.BoolVal(True)
+        bad = list(other_writes(c))
+        for (t, v) in stores(c):
+            if isinstance(v, VFunc) and v.how == "repo":
+                continue
+            if isinstance(v, VFunc) and v.how == "ext" and isinstance(v.a, str) and v.a.split(".")[0] == t.split(".")[0]:
+                continue        # an object of the patched library itself
+            if type(v).__name__ == "VType" and str(v.name).split(".")[0] == t.split(".")[0] and "." in str(v.name):
+                continue        # a class of the patched library itself (re-export)
+            if isinstance(v, VFunc) and v.how == "closure" and isinstance(v.a, ast.FunctionDef) and v.a.name in nested:
+                cap = captured(v.a)
+                if not cap:
+                    continue
+                bad.append(f"{t} <- {v.a.name} capturing per-call state {cap}")
+                continue
+            bad.append(f"{t} <- {v!r}")
+        if bad:
+            c.note = "; ".join(bad[:4])
+        else:
+            c.note = f"{len(stores(c))} installation(s), all closed values"
+        return z3.BoolVal(not bad)
+
+    def same_targets(c):
+        if not body(c):
+            return z3.BoolVal(True)
+        ts = tuple(t for (t, _v) in stores(c))
+        if not ts:
+            return z3.BoolVal(True)
+        first = seen.setdefault("targets", ts)
+        if first != ts:
+            c.note = f"one path installs {list(first)[:6]}, another {list(ts)[:6]}"
+        return z3.BoolVal(first == ts)
+
+    def nothing_installed(c):
+        if not body(c):
+            return z3.BoolVal(True)
+        w = tuple(t for (t, _v) in stores(c)) + other_writes(c)
+        if w:
+            c.note = "raises after installing " + ", ".join(w[:6])
+        return z3.BoolVal(not w)
+
+    me = FnContract(
+        target=f"{key[0]}::{key[1]}", params=[],
+        ensures=[("installs-nothing-unless-it-returns-True", nothing_unless_true),
+                 ("every-installed-value-is-closed-(no-per-call-state)", closed_values),
+                 ("all-installing-paths-install-the-same-targets-(idempotent)", same_targets)],
+        raises=[Raises("Exception", sub=True, when=nothing_installed,
+                       label="whatever reading pypdf's provider tag / layout raises (ImportError, AttributeError, ...): nothing was installed before")],
+        note="verified on the real body (round 7): attribute stores on pypdf modules / classes as a ghost installation list",
+    )
+    ROLE_OF[me.target] = "<permanent-aes-patch>"
+    return me
+
+
+_MUTABLE_CTORS = {"list", "dict", "set", "bytearray", "OrderedDict", "defaultdict", "deque", "Counter", "array"}
+
+
+def shared_containers(rel, repo=None, skip=()):
+    """Module-level names bound to a mutable container that is not a literal table of constants (empty / non-constant display,
+    comprehension, constructor call, `[x] * n`): scratch buffers, registries, caches."""
+    out = []
+    try:
+        m = loader.module(rel, repo)
+        for name, v in m.assigns.items():
+            if name in skip:
+                continue
+            if isinstance(v, ast.BinOp) and isinstance(v.op, ast.Mult):
+                v = v.left if isinstance(v.left, (ast.List, ast.Call)) else v.right
+            if isinstance(v, (ast.List, ast.Set)) and v.elts and all(isinstance(e, ast.Constant) for e in v.elts):
+                continue        # a literal table of constants: read as its content (engine: immutable); a writer is H5's / H10's finding
+            if isinstance(v, (ast.List, ast.ListComp, ast.Dict, ast.DictComp, ast.Set, ast.SetComp)):
+                out.append(name)
+            elif isinstance(v, ast.Call):
+                d = dotted(v.func) or ""
+                if d.split(".")[-1] in _MUTABLE_CTORS:
+                    out.append(name)
+    except Exception:  # noqa
+        return []
+    return out
+
+
+def expansion_contract(reg, rel, name):
+    """Round 7.  The key expansion behind the round-key cache under a contract VERIFIED on its real body -- it was the assumed
+    half of the accessor's contract ("returns a fresh list or raises ValueError").  What isolation needs from it:
+      * the result is a list ALLOCATED BY THIS CALL whose elements are immutable byte strings: nothing another call, the cache or
+        another thread holds can alias it (so publishing it in the cache publishes nothing else);
+      * no object that existed before the call (module-level tables / buffers, anything the cache holds) is written;
+      * the only exception is the ValueError of the key-length check, raised exactly for lengths other than 16 / 24 / 32.
+    Scope: symbolic key BYTES of length 16, 24, 32 (all lengths with a normal return; loops run to their real, length-determined
+    bounds) and a key of any other symbolic length.  256-entry constant byte tables are read as "some byte"."""
+    try:
+        fn = loader.module(rel).functions.get(name)
+        if fn is None:
+            return None
+        ps = [a.arg for a in (fn.args.posonlyargs + fn.args.args)]
+        if len(ps) != 1 or fn.args.vararg or fn.args.kwarg or fn.args.kwonlyargs:
+            return None
+        cache_name = discover().get("round-key-cache") or "_ROUND_KEY_CACHE"
+        for nm in shared_containers(rel, skip=(cache_name,)):
+            reg.module_consts.setdefault((rel, nm), VExt("C15Shared"))
+    except Exception:  # noqa
+        return None
+    from pyvc.values import VBytes, VSeq
+    from pyvc.verify import p_bytes
+    key = ps[0]
+    LENS = (16, 24, 32)
+    other_len = z3.Int("C15_other_key_len")
+
+    def mk(ex, st, nm):
+        alts = [(None, p_bytes(n).make(ex, st, nm)[0][1]) for n in LENS]
+        alts.append((z3.And(other_len >= 0, *[other_len != n for n in LENS]),
+                     VSeq(other_len, lambda i: VInt(z3.BitVec(fresh_name("kb"), 8)), "int")))
+        return alts
+
+    def body(c):
+        return not c.at_call_site and c.ex.contract is me
+
+    def fresh_result(c):
+        if not body(c):
+            return z3.BoolVal(True)
+        r = c.result
+        if not isinstance(r, VRef):
+            c.note = f"returns {r!r}: not an object allocated by this call"
+            return z3.BoolVal(False)
+        o = c.st.obj(r.ref)
+        if r.ref in c.entry.heap or not o.fresh or r.ref in c.ex.published(c.st):
+            c.note = "the returned list existed before the call / is held by the cache"
+            return z3.BoolVal(False)
+        if o.kind != "list" or o.data is None or not all(isinstance(x, (VBytes, VStr, VInt, VBool)) for x in o.data):
+            c.note = f"returned {o.kind} with elements that are not known to be immutable values"
+            return z3.BoolVal(False)
+        c.note = f"list of {len(o.data)} byte strings allocated by the call"
+        return z3.BoolVal(True)
+
+    def nothing_older_written(c):
+        if not body(c):
+            return z3.BoolVal(True)
+        m = tuple(c.st.ghost.get("published_mutated", ())) + tuple(l for (_r, l) in c.st.ghost.get("nonfresh_stores", ()))
+        if m:
+            c.note = "writes to an object that existed before the call at " + ", ".join(m)
+        return z3.BoolVal(not m)
+
+    def bad_length(c):
+        if not body(c):
+            return z3.BoolVal(True)
+        k = c.args[key]
+        ok = isinstance(k, VSeq)         # the three alternatives of concrete, valid length must not raise at all
+        return z3.And(z3.BoolVal(ok), nothing_older_written(c))
+
+    def expansion_result(ex, st, ctx):
+        v = ex.new_list(st, [VUnk(f"rk[{i}]") for i in range(2)])
+        # ghost trace of expansions (argument, result) for the accessor's memo clause
+        st.ghost["expansions"] = tuple(st.ghost.get("expansions", ())) + ((ctx.args.get(key), v.ref),)
+        return v
+
+    me = FnContract(
+        target=f"{rel}::{name}", params=[(key, Maker(mk, desc="bytes of length 16 | 24 | 32 | any other length"))],
+        ensures=[("result-is-a-list-allocated-by-this-call", fresh_result),
+                 ("no-object-older-than-the-call-is-written", nothing_older_written)],
+        raises=[Raises("ValueError", when=bad_length, label="exactly the key-length check; nothing written before")],
+        result_maker=expansion_result,
+        note="verified on the real body (round 7); call-site view = a list allocated by the call or ValueError (the former assumed model)",
+    )
+    ROLE_OF[me.target] = "<key-expansion>"
+    return me
 
 
 # ---------------------------------------------------------------- dataflow --
@@ -600,7 +1214,8 @@ def policy(repo, tier):
         if n_inst == 0:
             ok, unknown_origin = False, True
             why.append("no installation site found")
-        fns.append(dict(mods[perm_key[0]].fn_info(perm_key[1]), obligations=1))
+        # (round 7: the function is listed under contract by its symbolic contract `permanent_patch_contract`; H2 stays as the
+        #  interprocedural dataflow reading of the same claim -- helpers that install on its behalf)
     GH("C15/_pypdf_aes_fallback.py::<permanent-aes-patch>/frame#installs-only-stateless-functions-(idempotent)", ok,
        "; ".join(why[:4]) or f"{perm_key[1]}: every installed value is a module-level function, a closure without captured state or a re-export", AESF,
        definite=not unknown_origin)
@@ -1088,7 +1703,10 @@ TRUSTED = ["the with-body of _patched_build_char_map leaves the patched attribut
            "library (non-package) callables do not mutate the arguments they are given (ownership analysis); copies (dict(x), list(x), x.copy(), slices) "
            "are tracked one level deep"]
 ASSUMED_MODELS = ["getattr/setattr on pypdf modules (ghost attribute map)", "generator resumption: normal, throw(exc), close()",
-                  "_ROUND_KEY_CACHE as an abstract mapping whose values are published heap objects; _expand_key returns a fresh list or raises ValueError (C20 proves it)"]
+                  "pypdf._crypt_providers.crypt_provider is a tuple of strings (its items compare with a str without raising; checked against the "
+                  "installed pypdf on every run by replay/C15.py::assumed_model_facts)",
+                  "_ROUND_KEY_CACHE as an abstract mapping whose values are published heap objects (the key expansion it memoises is "
+                  "verified since round 7: <key-expansion> obligations)"]
 ASSUMPTIONS = ["SCHEDULES: only the sufficient conditions H9a / H9b / H10 / H12 on the module state the library owns are decided; interleavings inside third-party "
                "code and schedules with more context switches than the replayer explores (1 for caches, 2 for the patch section) are NOT",
                "memo soundness / ownership / write discipline are dataflow analyses on the real AST (back end 'dataflow'); an unrecognised shape is `unknown`, never proved",
